@@ -22,6 +22,7 @@ import Driver.AwaitifyReuse
 import Driver.CachedPropertyHandoff
 import Driver.BorrowSend
 import Driver.AdaptersFail
+import Driver.LruOrder
 import Driver.Tools
 open Lean
 
@@ -44,6 +45,7 @@ def dispatch (j : Json) : Except String Json := do
   | "cachedpropertyhandoff" => Drv.CachedPropertyHandoff.run j
   | "borrowsend" => Drv.BorrowSend.run j
   | "adaptersfail" => Drv.AdaptersFail.run j
+  | "lruorder" => Drv.LruOrder.run j
   | "tool" => Drv.Tools.run j
   | "contextmanager" => Drv.ContextManager.run j
   | "adapters" => Drv.Adapters.run j
